@@ -413,6 +413,11 @@ def run_check(pid, tier, seed):
         if ok is False:
             raise H.MachineryError(f"violation did not reproduce identically on replay: {first_path}")
     cov = coverage_for(cfg["level"], tot, tier)
+    # vacuity guard: a check that explored nothing is broken machinery, not a pass
+    for name, rep in reports:
+        c = rep.get("counts", {})
+        if not rep.get("violations") and not any(c.get(k, 0) for k in ("evaluations", "states", "programs", "traces_validated_against_impl", "utf8_dfa_cases", "miri_inputs")) and name != "miri":
+            raise H.MachineryError(f"step {name} of {pid} explored nothing (vacuous run)")
     cov["known_findings_seen"] = [{"what": e["what"], "cases": len(vs)} for e, vs in buckets if vs]
     H.write_evidence(pid, tier, seed, cfg["level"], cov, cfg.get("assumptions", []), time.time() - t0, len(new))
     for n, (p, v) in enumerate(paths):
